@@ -168,6 +168,7 @@ fn main() {
         "c08w" => vharness::c08::run_wake(seed, n, &dir),
         "typed" => vharness::typed::run(seed, n, thorough, &corpus, &dir),
         "comp" => vharness::comp::run(seed, n, thorough, &corpus, &dir),
+        "fdec" => vharness::fdec::run(seed, n, thorough, &corpus, &dir),
         other => { eprintln!("unknown sub-harness {other}"); std::process::exit(2); }
     }
 }
